@@ -78,7 +78,9 @@ def opsSym (op : String) (ins outs : List String) : Option String :=
       let v0s ← sel.mapM fun i => v0.d[i]?
       if H.r != sel.length then pure "FAIL hansen-matrix-has-the-wrong-number-of-rows" else
       let ok := Deriv.hansenOk H ⟨sel.length, 1, vs⟩ ⟨sel.length, 1, v0s⟩ dx
-      pure (if ok then (if dx.all (· == 0) then "ok same-point" else "ok slope-enclosed") else "FAIL f(x)-f(x0)-outside-H(x-x0)")
+      pure (if ok then (if dx.all (· == 0) then "ok same-point" else "ok slope-enclosed")
+            else if !(Deriv.definedOn funs main (Deriv.hullPts p0 p)) then "ok pole-between-the-points-no-claim"
+            else "FAIL f(x)-f(x0)-outside-H(x-x0)")
     | _, _ => pure "ok undefined-or-unsupported"
   | "hansenpt", [dag, x0, x], [h] => do
     let (funs, main) ← parseProgram dag
@@ -89,7 +91,10 @@ def opsSym (op : String) (ins outs : List String) : Option String :=
       let H ← parseMatItv h
       let dx := List.zipWith (· - ·) p p0
       let ok := Deriv.hansenOk H v v0 dx
-      pure (if ok then (if dx.all (· == 0) then "ok same-point" else "ok slope-enclosed") else "FAIL f(x)-f(x0)-outside-H(x-x0)")
+      -- (a slope matrix only exists where the function is defined on the segments from x0 to x: no pole in their box)
+      pure (if ok then (if dx.all (· == 0) then "ok same-point" else "ok slope-enclosed")
+            else if !(Deriv.definedOn funs main (Deriv.hullPts p0 p)) then "ok pole-between-the-points-no-claim"
+            else "FAIL f(x)-f(x0)-outside-H(x-x0)")
     | _, _ => pure "ok undefined-or-unsupported"
   | "diffpt", [dag, ddag, pt], _ => do
     let (funs, main) ← parseProgram dag
